@@ -1042,6 +1042,24 @@ impl<'a> Gen<'a> {
                 out.push(s);
             }
             1 => self.var_stmt(out),
+            2 if !in_fin && self.rd.chance(1, 12) => {
+                // assignment to a global that was never declared: a NameError, and the name must
+                // still be undefined afterwards
+                self.label("assign_undeclared_global");
+                let ghost = self.fresh("ghost");
+                let (e1, e2) = (self.fresh("e"), self.fresh("e"));
+                let value = self.expr(Kind::Num, 1);
+                out.push(Stmt::new(StmtKind::Try(
+                    vec![Stmt::expr(Expr::assign_var(&ghost, value)), Stmt::print(Expr::str("assigned"))],
+                    Some((e1.clone(), vec![Stmt::print(Expr::callv("type", vec![Expr::var(&e1)]))])),
+                    None,
+                )));
+                out.push(Stmt::new(StmtKind::Try(
+                    vec![Stmt::print(Expr::var(&ghost))],
+                    Some((e2.clone(), vec![Stmt::print(Expr::callv("type", vec![Expr::var(&e2)]))])),
+                    None,
+                )));
+            }
             2 => {
                 let d = p.expr_depth;
                 let gd = self.guard_begin();
@@ -1485,7 +1503,54 @@ impl<'a> Gen<'a> {
                 kind: FnKind::Function,
             })))
         };
-        match self.rd.below(9) {
+        match self.rd.below(11) {
+            9 | 10 => {
+                // a function's own name inside its body is an ordinary variable: rebinding it changes
+                // what the body sees, and the body may assign to it
+                self.label("function_name_rebound");
+                let local = !self.at_global() || self.rd.flag();
+                let (fa, fb) = (self.fresh("fa"), self.fresh("fb"));
+                let l1 = self.next_lambda_name();
+                let mut stmts = vec![
+                    fdef(&fa, vec!["n".into()], vec![ret(Expr::VecLit(vec![Expr::var("n"), Expr::var(&fa)]))]),
+                    Stmt::var("kept", Some(Expr::var(&fa))),
+                    Stmt::expr(Expr::assign_var(&fa, Expr::Lambda(Rc::new(FnDef {
+                        name: RefCell::new(l1),
+                        params: vec!["n".into()],
+                        body: Body::Expr(Box::new(Expr::str("rebound"))),
+                        kind: FnKind::Lambda,
+                    })))),
+                    // the old closure hands out whatever the name means now
+                    Stmt::print(Expr::call(Expr::index(Expr::callv("kept", vec![Expr::Num(1.0)]), Expr::Num(1.0)), vec![Expr::Num(2.0)])),
+                    Stmt::print(Expr::index(Expr::callv("kept", vec![Expr::Num(3.0)]), Expr::Num(0.0))),
+                    fdef(&fb, vec![], vec![Stmt::expr(Expr::assign_var(&fb, Expr::Num(7.0))), ret(Expr::var(&fb))]),
+                    Stmt::var("kept2", Some(Expr::var(&fb))),
+                    Stmt::print(Expr::callv("kept2", vec![])),
+                    Stmt::print(Expr::var(&fb)),
+                ];
+                if local {
+                    // the same with local functions (the name is a captured variable)
+                    let w = self.fresh("wrap");
+                    stmts.push(ret(Expr::var("kept")));
+                    out.push(fdef(&w, vec![], stmts));
+                    self.declare(&w, Kind::Fn(0), false);
+                    out.push(Stmt::print(Expr::index(Expr::call(Expr::callv(&w, vec![]), vec![Expr::Num(4.0)]), Expr::Num(0.0))));
+                } else {
+                    // at module level the names are globals; distinct names per instance
+                    let (k1, k2) = (self.fresh("g"), self.fresh("g"));
+                    for s in stmts.iter_mut() {
+                        rename_var_decl(s, "kept", &k1);
+                        rename_var_decl(s, "kept2", &k2);
+                    }
+                    let text_k1 = k1.clone();
+                    let text_k2 = k2.clone();
+                    // rebuild the statements that mention the kept names
+                    stmts[3] = Stmt::print(Expr::call(Expr::index(Expr::callv(&text_k1, vec![Expr::Num(1.0)]), Expr::Num(1.0)), vec![Expr::Num(2.0)]));
+                    stmts[4] = Stmt::print(Expr::index(Expr::callv(&text_k1, vec![Expr::Num(3.0)]), Expr::Num(0.0)));
+                    stmts[7] = Stmt::print(Expr::callv(&text_k2, vec![]));
+                    out.extend(stmts);
+                }
+            }
             7 | 8 => {
                 // captured variables in neighbouring slots of nested scopes: the scopes end
                 // innermost first, each enclosing variable is then written by its declaring scope
@@ -1618,6 +1683,10 @@ impl<'a> Gen<'a> {
                 let fin_body = if returns {
                     // temporaries and calls inside the finally block reuse the slots above the handler
                     vec![
+                        // (entered through the return, not by an exception: declarations are fine here)
+                        Stmt::var("fx", Some(Expr::str("FX"))),
+                        Stmt::var("fy", Some(Expr::VecLit(vec![Expr::str("FY")]))),
+                        Stmt::print(Expr::VecLit(vec![Expr::var("fx"), Expr::var("fy")])),
                         Stmt::print(Expr::VecLit(vec![Expr::str("fin"), Expr::str("F1"), Expr::str("F2"), Expr::str("F3")])),
                         Stmt::print(Expr::callv(keep, vec![])),
                         Stmt::print(Expr::invoke(Expr::VecLit(vec![Expr::Num(1.0), Expr::Num(2.0), Expr::Num(3.0)]), "len", vec![])),
@@ -2070,6 +2139,15 @@ pub fn program(data: &[u8], prof: Profile) -> (Program, Vec<&'static str>) {
         },
         labels,
     )
+}
+
+/// rename the variable a `var` statement declares (helper for templates built with fixed names)
+fn rename_var_decl(s: &mut Stmt, from: &str, to: &str) {
+    if let StmtKind::Var(name, _) = &mut s.kind {
+        if name == from {
+            *name = to.to_string();
+        }
+    }
 }
 
 #[allow(dead_code)]
